@@ -25,12 +25,42 @@ pub fn gen_fixed(s: &Shape, r: &mut Rng) -> Vec<u8> {
     }
 }
 
+/// Keys for sorted containers. For multi-byte keys most draws come from a pool on which the numeric
+/// order (`K::Ord`) and the little-endian BYTE-lexicographic order DISAGREE (0x0001 / 0x0100, 0x00FF / 0x0100,
+/// 0x01FF / 0x0200, equal high bytes with reversed low bytes, and the u32 / u64 analogues), so an
+/// implementation that compares raw bytes stores, finds or removes the wrong entry.
 fn gen_key(w: usize, r: &mut Rng) -> Vec<u8> {
-    match r.below(12) {
+    if w == 1 {
+        return match r.below(12) {
+            0 => vec![0xff],
+            1 => vec![0],
+            _ => vec![r.below(10) as u8 + 1],
+        };
+    }
+    const POOL16: [u128; 14] = [0x0001, 0x0100, 0x00ff, 0x0101, 0x01ff, 0x0200, 0x0201, 0x0102, 0x0002, 0x0300, 0xff00, 0x00fe, 0x1000, 0x0010];
+    let bits = 8 * w as u32;
+    match r.below(16) {
         0 => vec![0xff; w],
         1 => vec![0; w],
         2 => le_bytes(255, w),
-        _ => le_bytes(r.below(10) as u128 + 1, w),
+        3..=4 => le_bytes(r.below(10) as u128 + 1, w),
+        5..=11 => le_bytes(POOL16[r.below(14) as usize], w),
+        12..=13 => {
+            // one set bit / byte boundary in a random byte position (the u32 / u64 analogues)
+            let sh = 8 * r.below(w as u64) as u32;
+            let v: u128 = match r.below(4) {
+                0 => 1u128 << sh,
+                1 => (1u128 << sh).wrapping_sub(1),
+                2 => (1u128 << sh) | 1,
+                _ => 0xffu128 << sh,
+            };
+            le_bytes(v & ((1u128 << bits) - 1), w)
+        }
+        _ => {
+            // same high part, low bytes reversed: 0x..0102 vs 0x..0201
+            let hi = (r.below(3) as u128) << (bits - 8);
+            le_bytes(hi | if r.chance(1, 2) { 0x0102 } else { 0x0201 }, w)
+        }
     }
 }
 
